@@ -226,9 +226,13 @@ ReleaseReader(m, c) ==
 (* handlers *)
 
 OnCfg(m, o) ==
-    [m EXCEPT !.nsys = o.nsys, !.nonce = o.nonce, !.nworld = o.nworld, !.neworld = o.neworld, !.hier = o.hier, !.nent = o.nent,
-              !.alive = (1..o.nsys) \cup ((o.nsys + o.nonce + 1)..(o.nsys + o.nonce + o.nworld + o.neworld)),
-              !.aliveE = 1..o.nent]
+    LET base == o.nsys + o.nonce + o.nworld + o.neworld
+        m0 == [m EXCEPT !.nsys = o.nsys, !.nonce = o.nonce, !.nworld = o.nworld, !.neworld = o.neworld, !.hier = o.hier, !.nent = o.nent,
+                        !.alive = (1..o.nsys) \cup ((o.nsys + o.nonce + 1)..(base + Len(o.app))),
+                        !.aliveE = 1..o.nent]
+        \* reactors added with App::add_reactor: one system each, registered persistently
+        m1 == FoldSeq(LAMBDA acc, i : AddReg(acc, base + i, o.app[i], FALSE), m0, [ i \in 1..Len(o.app) |-> i ])
+    IN Chk(m1, o.appsys = Len(o.app), "C13", "two registrations of the same function share one system (fewer systems than registrations)")
 
 OpName(op) == op[1]
 
